@@ -4,6 +4,7 @@ CONSTANTS
   MaxKK = 3
   MaxRd = 1
   NQ = 2
+  MaxPolls = 1
   MaxLatch = 1
   FileSteps = FALSE
   QKinds = {"past", "exact", "future"}
